@@ -26,6 +26,16 @@ static LOG: Mutex<Vec<String>> = Mutex::new(Vec::new());
 static NAMES: Mutex<Option<Names>> = Mutex::new(None);
 
 fn log(s: String) { LOG.lock().unwrap_or_else(|e| e.into_inner()).push(s); }
+// runaway guard: on the unchanged crate a program's bodies run a bounded number of times (scripts are indexed by the
+// run number); a change that resets a system's state can make a self-running script loop forever
+static RUNS: std::sync::atomic::AtomicUsize = std::sync::atomic::AtomicUsize::new(0);
+const RUN_BUDGET: usize = 2000;
+fn over_budget() -> bool
+{
+    let n = RUNS.fetch_add(1, std::sync::atomic::Ordering::Relaxed);
+    if n == RUN_BUDGET { log("panic run-budget-exceeded".to_string()); }
+    n >= RUN_BUDGET
+}
 
 #[derive(Default, Clone)]
 struct Names
@@ -527,6 +537,7 @@ fn body_plain(sd: &SysDecl, prog: &Prog, captured: &mut u32, ctx: &mut Ctx, read
     log(format!("run {} {} {}{}{}", sd.id, run, *captured, sample, l.unwrap_or_default()));
     **local += 1;
     *captured += 1;
+    if over_budget() { return; }
     for (idx, a) in script_of(prog, sd.id, run).iter().enumerate()
     {
         do_action(ctx, &format!("s{}.{}.{}", sd.id, run, idx), a);
@@ -541,6 +552,7 @@ fn body_excl(sd: &SysDecl, prog: &Prog, captured: &mut u32, runno: &mut u32, wor
     log(format!("run {} {} {}{}", sd.id, run, *captured, sample));
     *runno += 1;
     *captured += 1;
+    if over_budget() { return; }
     for (idx, a) in script_of(prog, sd.id, run).iter().enumerate()
     {
         step_action(world, &format!("s{}.{}.{}", sd.id, run, idx), a);
@@ -569,15 +581,13 @@ fn make_callback(sd: SysDecl, prog: Arc<Prog>) -> SystemCommandCallback
             { let _ = &canary; body_plain(&sd, &prog, &mut captured, &mut ctx, &mut readers, &mut local, None); Err(IgnoredError) }),
         (Kind::Excl, false) =>
         {
-            let mut runno = 0u32;
-            SystemCommandCallback::new(move |world: &mut World|
-            { let _ = &canary; body_excl(&sd, &prog, &mut captured, &mut runno, world); })
+            SystemCommandCallback::new(move |world: &mut World, mut local: Local<u32>|
+            { let _ = &canary; body_excl(&sd, &prog, &mut captured, &mut *local, world); })
         }
         (Kind::Excl, true) =>
         {
-            let mut runno = 0u32;
-            SystemCommandCallback::new(move |world: &mut World| -> DropErr
-            { let _ = &canary; body_excl(&sd, &prog, &mut captured, &mut runno, world); Err(IgnoredError) })
+            SystemCommandCallback::new(move |world: &mut World, mut local: Local<u32>| -> DropErr
+            { let _ = &canary; body_excl(&sd, &prog, &mut captured, &mut *local, world); Err(IgnoredError) })
         }
     }
 }
@@ -630,15 +640,13 @@ fn once_sys(c: &mut Commands, sid: u32, prog: &Arc<Prog>, bundle: DynBundle) -> 
             { let _ = &canary; body_plain(&sd, &prog, &mut captured, &mut ctx, &mut readers, &mut local, None); Err(IgnoredError) }),
         (Kind::Excl, false) =>
         {
-            let mut runno = 0u32;
-            c.react().once(bundle, move |world: &mut World|
-            { let _ = &canary; body_excl(&sd, &prog, &mut captured, &mut runno, world); })
+            c.react().once(bundle, move |world: &mut World, mut local: Local<u32>|
+            { let _ = &canary; body_excl(&sd, &prog, &mut captured, &mut *local, world); })
         }
         (Kind::Excl, true) =>
         {
-            let mut runno = 0u32;
-            c.react().once(bundle, move |world: &mut World| -> DropErr
-            { let _ = &canary; body_excl(&sd, &prog, &mut captured, &mut runno, world); Err(IgnoredError) })
+            c.react().once(bundle, move |world: &mut World, mut local: Local<u32>| -> DropErr
+            { let _ = &canary; body_excl(&sd, &prog, &mut captured, &mut *local, world); Err(IgnoredError) })
         }
     }
 }
@@ -692,6 +700,13 @@ fn new_entities(world: &mut World, before: &[Entity]) -> Vec<Entity>
 
 pub fn run_program(prog: Arc<Prog>) -> Vec<String>
 {
+    // big stack: a runaway nesting must end at the run budget, not in a stack overflow that kills the whole batch
+    std::thread::Builder::new().stack_size(1 << 30).spawn(move || run_program_inner(prog)).unwrap().join()
+        .unwrap_or_else(|_| vec!["panic harness-thread".to_string()])
+}
+fn run_program_inner(prog: Arc<Prog>) -> Vec<String>
+{
+    RUNS.store(0, std::sync::atomic::Ordering::Relaxed);
     LOG.lock().unwrap_or_else(|e| e.into_inner()).clear();
     *NAMES.lock().unwrap_or_else(|e| e.into_inner()) = Some(Names::default());
 
